@@ -109,6 +109,9 @@ def gen_item_C09(rng, idx, tier):
     if idx in (0, 1):
         # a tree deeper than the interpreter's recursion limit (predicate only: too large for the model driver)
         return {'mode': 'deep', 'size': 1300 if tier == 'quick' else 2600, 'fmt': ['hdf5', 'fits'][idx]}
+    if idx in (2, 3):
+        # thousands of structures
+        return {'mode': 'deep', 'size': 0, 'big': 70 if tier == 'quick' else 140, 'fmt': ['hdf5', 'fits'][idx - 2], 'seed': rng.randrange(10 ** 6)}
     r = idx % 5
     if r == 3:
         n = rng.randint(1, 9 if tier == 'quick' else 14)
@@ -155,14 +158,18 @@ def eval_C09(item):
     drv = session.driver()
     if item['mode'] == 'deep':
         n = item['size']
-        d1_ = np.arange(n * 2)
-        d2_ = np.arange(n * 2)
-        d2_[::2] += 2
-        d1_[-1] = 0
-        data = np.vstack((d1_, d2_)).astype(float)
+        if n:
+            d1_ = np.arange(n * 2)
+            d2_ = np.arange(n * 2)
+            d2_[::2] += 2
+            d1_[-1] = 0
+            data = np.vstack((d1_, d2_)).astype(float)
+        else:
+            data = np.random.RandomState(item['seed']).permutation(item['big'] ** 2).reshape(item['big'], item['big']).astype(float)
         d = Dendrogram.compute(data)
         depth = max(s.level for s in d)
         res['tags'].append('depth>=%d' % (depth // 500 * 500))
+        res['tags'].append('structures>=%d' % (len(d) // 1000 * 1000))
         path = tmpfile('.' + item['fmt'])
         try:
             with warnings.catch_warnings():
@@ -533,6 +540,27 @@ def eval_C18(item):
                 res['pred'].append('branch %d has %d segments' % (sid, len(gs)))
         elif len(gs) != 1:
             res['pred'].append('leaf %d has %d segments' % (sid, len(gs)))
+    # custom positions replace the computed layout and are what get_lines draws
+    cp = d.plotter()
+    cp.set_custom_positions(lambda s_: 3.5 * s_.idx + 0.25)
+    cpos = dict((int(s_.idx), float(x_)) for s_, x_ in cp._cached_positions.items())
+    if cpos != dict((sid_, 3.5 * sid_ + 0.25) for sid_ in structs):
+        res['pred'].append('set_custom_positions: positions %r are not the requested ones' % (cpos,))
+    else:
+        lc3 = cp.get_lines()
+        seen_ = set()
+        for s_, g in zip(lc3.structures, lc3.get_segments()):
+            sid_ = int(s_.idx)
+            xs_ = sorted([float(g[0][0]), float(g[1][0])])
+            if sid_ not in seen_:            # the first segment of a structure is its vertical
+                seen_.add(sid_)
+                ok_ = xs_ == [cpos[sid_], cpos[sid_]]
+            else:
+                pc_ = [cpos[c_] for c_ in structs[sid_]['kids']]
+                ok_ = bool(pc_) and xs_ == [min(pc_), max(pc_)]
+            if not ok_:
+                res['pred'].append('with custom positions a segment of structure %d is drawn at x=%r' % (sid_, xs_))
+                break
     # a selected structure with / without subtree, given as object, id, list
     ids = sorted(structs)
     if not ids:
